@@ -43,7 +43,8 @@ func Verif_C13_InProc() {
 	streaming := zv.Bool("streaming")
 	credKind := zv.Choose("cred-metadata", 6) // 0 nil map, 1 disjoint, 2 overlapping, 3 error, 4 overlapping with upper-case key, 5 empty map
 	secure := zv.Bool("creds-require-security")
-	callerMD := zv.Bool("caller-has-metadata")
+	callerKind := zv.Choose("caller-metadata", 3) // 0 none, 1 NewOutgoingContext, 2 New + AppendToOutgoingContext
+	callerMD := callerKind != 0
 
 	var seenMD metadata.MD
 	var seenPeer *peer.Peer
@@ -59,8 +60,11 @@ func Verif_C13_InProc() {
 	}
 	ch := verifChannel(hooks)
 	ctx := context.Background()
-	if callerMD {
+	if callerKind == 1 {
 		ctx = metadata.NewOutgoingContext(ctx, metadata.Pairs("k1", "caller-1", "shared", "caller-s"))
+	} else if callerKind == 2 {
+		ctx = metadata.NewOutgoingContext(ctx, metadata.Pairs("k1", "caller-1"))
+		ctx = metadata.AppendToOutgoingContext(ctx, "shared", "caller-s")
 	}
 	creds := &verifCreds{secure: secure}
 	switch credKind {
